@@ -362,4 +362,5 @@ FLOORS = {"group:table": 1, "group:indicator": 6, "group:homogeneity": 6, "group
 LEVEL = "other"
 EXPLANATION = ("Partial: dispatch table, support indicator, degree-one homogeneity of integrate('1'|'x'|'x**2') in the base mass and that the normalised variant evaluates the "
                "NORMALISED base density, for finite generic limits; closed forms of the integrals of 1, x, x**2 in Phi / phi; integrate('x**k') for every k in 0..6 (lax.scan unrolled) "
-               "against the raw-moment Stein recursion. Tail accuracy of misc.normal_cdf, one-sided limits of the x**k recursion and numerical additivity are NOT decided.")
+               "against the raw-moment Stein recursion; the bodies of misc.normal_cdf / normal_pdf / binom (replaced by Phi / phi / the binomial coefficient everywhere else) equal those "
+               "functions and the cdf is not assembled from the cancelling 1 + erf form. Tail accuracy beyond that structural rule, one-sided limits of the x**k recursion and numerical additivity are NOT decided.")
